@@ -74,6 +74,7 @@ THEOREMS = [
     "Baize.StreamAsgi.e_one_ping",
     "Baize.StreamAsgi.e_finished_released",
     "Baize.StreamAsgi.e_cleanup_at_most_once",
+    "Baize.StreamAsgi.e_aclose_exactly_once",
     "Baize.StreamAsgi.e_delivered_prefix",
     "Baize.StreamAsgi.asgi_source_pinned",
 ]
@@ -1558,8 +1559,9 @@ ASSUMPTIONS = [
     "a producer that was never started has no cleanup to run (relay cancelled before its first step)",
 ]
 PARTIAL = ("The ASGI models treat "
-           "the relay's `await g.aclose()` as non-suspending and identify 'the generator has finished' with 'its "
-           "cleanup ran': producers whose cleanup awaits, and iterator objects whose cleanup is their aclose(), are "
-           "judged on the real code by the oracle only (scenario modes 4-7), not by a theorem.  "
+           "the relay's `await g.aclose()` as non-suspending: producers whose cleanup itself awaits are judged on "
+           "the real code by the oracle only (scenario modes 5 and 7), not by a theorem; iterator objects whose "
+           "cleanup is their aclose() are covered for the event stream by e_aclose_exactly_once, for the plain "
+           "StreamResponse by the pinned shape of its finally block and scenario mode 4.  "
            "Forced-schedule replay is at queue/future-call granularity; interleavings of the should_stop flag finer "
            "than that are covered by the proofs only.")
